@@ -495,6 +495,10 @@ def _close_filter(devs, i, alt, label):
     return i <= devs[0][0] + 30
 
 
+def _env_filter(devs, i, alt, label):
+    return not devs and any(a == alt for a, nm in getattr(label, 'lazy', ()))
+
+
 def _slow_filter(devs, i, alt, label):
     if not devs:
         return label.startswith('reply:')
@@ -526,6 +530,12 @@ def run(ck):
     slow = [_cfg('cf:p10:slow:focus2', 'cf', 10, nlog=0, nparam=1, menu=('once', 'delay0.2', 'drop'), driver_fault=False)]
     r5 = explore(ck, exec_c02, slow, 2, child_filter=_slow_filter, max_execs=1500000)
     ck.note('slow_answer_plus_one_switch', r5)
+    # the link is lost (or the user closes) at any line, and the interrupted thread stays paused until the error path has
+    # run to its end with whatever other threads it needs (scheduling policy env_first): one deviation reaches "the whole
+    # disconnect happened between these two lines"
+    ef = [dict(c, name=c['name'] + ':env_first', policy='env_first') for c in configs_lines()]
+    r7 = explore(ck, exec_c02, ef, 1, child_filter=_env_filter)
+    ck.note('environment_event_handled_completely_at_any_line', r7)
     if not ck.quick:
         r3 = explore(ck, exec_c02, configs_deep(), 2, max_execs=1500000)
         ck.note('two_deviation_exploration', r3)
